@@ -11,6 +11,8 @@ from spacepackets.uslp.frame import (TransferFrame, TransferFrameDataField, Tfdz
 H = "spacepackets.uslp.header:"
 F = "spacepackets.uslp.frame:"
 N = Choice(0, 1, 2, 3, 4, 5, 6, 7)
+N_LO = Choice(0, 1, 2, 3)
+N_HI = Choice(4, 5, 6, 7)
 
 
 # ------------------------------------------------------------------------------------------------ primary headers
@@ -86,7 +88,10 @@ def ph_unpack(data: Bytes, n: N):
     if o.ok:
         h = o.value
         w = from_be(data[0:4])
-        ensures("ids", both(h.scid == bits(w, 27, 12), h.src_dest == bits(w, 11, 11), h.vcid == bits(w, 10, 5), h.map_id == bits(w, 4, 1)))
+        ensures("scid", h.scid == bits(w, 27, 12))
+        ensures("src-dest", h.src_dest == bits(w, 11, 11))
+        ensures("vcid", h.vcid == bits(w, 10, 5))
+        ensures("map-id", h.map_id == bits(w, 4, 1))
         ensures("frame-len", h.frame_len == data[4] * 256 + data[5])
         ensures("flags", both(h.bypass_seq_ctrl_flag == bits(data[6], 7, 7), h.prot_ctrl_cmd_flag == bits(data[6], 6, 6),
                               h.op_ctrl_flag == bits(data[6], 3, 3), h.vcf_count_len == n))
@@ -112,7 +117,10 @@ def th_unpack(data: Bytes):
         if o.ok:
             h = o.value
             w = from_be(data[0:4])
-            ensures("ids", both(h.scid == bits(w, 27, 12), h.src_dest == bits(w, 11, 11), h.vcid == bits(w, 10, 5), h.map_id == bits(w, 4, 1)))
+            ensures("scid", h.scid == bits(w, 27, 12))
+            ensures("src-dest", h.src_dest == bits(w, 11, 11))
+            ensures("vcid", h.vcid == bits(w, 10, 5))
+            ensures("map-id", h.map_id == bits(w, 4, 1))
             ensures("len", both(h.len() == 4, h.truncated()))
             ensures("repack", h.pack() == data[0:4])
             ensures("prefix-only", same_state(h, TruncatedPrimaryHeader.unpack(data[0:4])))
@@ -167,3 +175,463 @@ def th_roundtrip(scid: IntRange(0, 65535), srcdst: EnumOf(SourceOrDestField), vc
         ensures("repack", g.pack() == raw)
     ensures("prefix-refused", outcome(TruncatedPrimaryHeader.unpack, raw[0:3]).raised(UslpInvalidRawPacketOrFrameLen))
     ensures("not-a-full-header", not outcome(PrimaryHeader.unpack, raw + suffix).ok)
+
+
+# ------------------------------------------------------------------------------------------------ transfer frame data field
+
+RULE = EnumOf(TfdzConstructionRules)
+UPID = IntRange(0, 31)          # every 5-bit protocol identifier, registered or not
+FTYPE = Choice(None, FrameType.FIXED, FrameType.VARIABLE)
+MAX_TFDZ = 65500                # far below the TFDF size limit of 65529 octets (4.1.4.1.3 / frame length field)
+
+
+def rule_is_fixed(rule):
+    """construction rules '000', '001', '010' organise fixed-length data zones and carry a 16-bit pointer (4.1.4.2.2-4)"""
+    return rule <= 2
+
+
+def family_matches(rule, ftype):
+    if ftype is None:
+        return True
+    if ftype == FrameType.FIXED:
+        return rule_is_fixed(rule)
+    return not rule_is_fixed(rule)
+
+
+@obligation(["C17", "C11"], "TransferFrameDataField.pack", verifies=[F + "TransferFrameDataField.pack", F + "TransferFrameDataField.__init__",
+                                                                      F + "TransferFrameDataField.should_have_fhp_or_lvp_field",
+                                                                      F + "TransferFrameDataField.len", F + "TransferFrameDataField.header_len",
+                                                                      F + "TransferFrameDataField.verify_frame_type"])
+def tfdf_pack(rule: RULE, upid: UPID, tfdz: BytesLen(0, MAX_TFDZ), has_ptr: Bool, ptr: IntRange(0, 65535), truncated: Bool, ftype: FTYPE):
+    """frame_type is either left to be derived from the construction rule or names the rule's own family"""
+    requires(family_matches(rule, ftype))
+    p = None
+    if has_ptr:
+        p = ptr
+    t = TransferFrameDataField(rule, upid, tfdz, p)
+    needs_ptr = both(rule_is_fixed(rule), not truncated)
+    ensures("needs-pointer", t.should_have_fhp_or_lvp_field(truncated, ftype if ftype is not None else
+                                                            (FrameType.FIXED if rule_is_fixed(rule) else FrameType.VARIABLE)) == needs_ptr)
+    ensures("family", both(t.verify_frame_type(FrameType.FIXED) == rule_is_fixed(rule),
+                           t.verify_frame_type(FrameType.VARIABLE) == (not rule_is_fixed(rule))))
+    o = outcome(t.pack, truncated, ftype)
+    ensures("raises-only", o.ok or o.raised(UslpFhpVhopFieldMissing))
+    ensures("pointer-missing-iff", iff(o.raised(UslpFhpVhopFieldMissing), both(needs_ptr, not has_ptr)))
+    if o.ok:
+        r = o.value
+        ensures("layout", r == tfdf_octets(rule, upid, needs_ptr, ptr, tfdz))
+        # consistent object: the pointer is there iff the format has the field
+        ensures("len", implies(has_ptr == needs_ptr, both(t.len() == len(r), t.header_len() == len(r) - len(tfdz))))
+        ensures("pack-twice", t.pack(truncated, ftype) == r)
+        ensures("data-zone-kept", t.tfdz == tfdz)
+
+
+@obligation(["C17", "C11"], "TransferFrameDataField.tfdz(setter)", verifies=[F + "TransferFrameDataField.tfdz", F + "TransferFrameDataField.len"])
+def tfdf_set_tfdz(rule: RULE, upid: UPID, tfdz0: BytesLen(0, MAX_TFDZ), tfdz1: BytesLen(0, MAX_TFDZ), ptr: IntRange(0, 65535), truncated: Bool):
+    needs_ptr = both(rule_is_fixed(rule), not truncated)
+    p = None
+    if needs_ptr:
+        p = ptr
+    t = TransferFrameDataField(rule, upid, tfdz0, p)
+    t.tfdz = tfdz1
+    fresh = TransferFrameDataField(rule, upid, tfdz1, p)
+    r = t.pack(truncated)
+    ensures("view", t.tfdz == tfdz1)
+    ensures("len-follows", both(t.len() == len(r), t.len() == t.header_len() + len(tfdz1)))
+    ensures("as-fresh", both(r == fresh.pack(truncated), same_state(t, fresh)))
+    ensures("layout", r == tfdf_octets(rule, upid, needs_ptr, ptr, tfdz1))
+
+
+@obligation(["C17", "C10"], "TransferFrameDataField.unpack", verifies=[F + "TransferFrameDataField.unpack"])
+def tfdf_unpack(raw: Bytes, truncated: Bool, exact_len: Int, ftype: FTYPE):
+    o = outcome(TransferFrameDataField.unpack, raw, truncated, exact_len, ftype)
+    ensures("raises-only", o.ok or o.raised(ValueError, UslpInvalidRawPacketOrFrameLen, UslpInvalidConstructionRules))
+    ensures("empty-refused", implies(len(raw) < 1, o.raised(UslpInvalidRawPacketOrFrameLen)))
+    if len(raw) >= 1:
+        rule = bits(raw[0], 7, 5)
+        ensures("wrong-family-refused", implies(not family_matches(rule, ftype), o.raised(UslpInvalidConstructionRules)))
+        # the pointer is read iff the rule is a fixed-length one, the frame is not truncated and not declared variable
+        reads_ptr = both(rule_is_fixed(rule), not truncated, ftype != FrameType.VARIABLE)
+        # a data field (actual or declared) too short to hold its own 3-octet header cannot be decoded
+        ensures("pointer-cut-refused", implies(both(family_matches(rule, ftype), reads_ptr, either(len(raw) < 3, exact_len < 3)),
+                                               o.raised(UslpInvalidRawPacketOrFrameLen)))
+        if o.ok:
+            t = o.value
+            ensures("header-octet", both(t.tfdz_contr_rules == rule, t.uslp_ident == bits(raw[0], 4, 0)))
+            if reads_ptr:
+                ensures("pointer", t.fhp_or_lvop == raw[1] * 256 + raw[2])
+                start = 3
+            else:
+                ensures("no-pointer", t.fhp_or_lvop is None)
+                start = 1
+            if both(start <= exact_len, exact_len <= len(raw)):
+                ensures("data-zone-exact", both(t.tfdz == raw[start:exact_len], len(t.tfdz) == exact_len - start))
+                ensures("len", t.len() == exact_len)
+                ensures("repack", t.pack(truncated, ftype) == raw[0:exact_len])
+
+
+@obligation(["C17"], "TransferFrameDataField/roundtrip", verifies=[F + "TransferFrameDataField.unpack", F + "TransferFrameDataField.pack"])
+def tfdf_roundtrip(rule: RULE, upid: UPID, tfdz: BytesLen(0, MAX_TFDZ), ptr: IntRange(0, 65535), truncated: Bool, ftype: FTYPE, suffix: Bytes):
+    requires(family_matches(rule, ftype))
+    needs_ptr = both(rule_is_fixed(rule), not truncated)
+    p = None
+    if needs_ptr:
+        p = ptr
+    t = TransferFrameDataField(rule, upid, tfdz, p)
+    raw = t.pack(truncated, ftype)
+    o = outcome(TransferFrameDataField.unpack, raw + suffix, truncated, len(raw), ftype)
+    ensures("accepted", o.ok)
+    if o.ok:
+        g = o.value
+        ensures("fields", both(g.tfdz_contr_rules == rule, g.uslp_ident == upid, g.fhp_or_lvop == p, g.tfdz == tfdz))
+        ensures("len", g.len() == len(raw))
+        ensures("repack", g.pack(truncated, ftype) == raw)
+
+
+# ------------------------------------------------------------------------------------------------ transfer frames
+
+FIXED_RULE = IntRange(0, 2)       # '000', '001', '010'
+VAR_RULE = IntRange(3, 7)         # '011' .. '111'
+V_FRAME = [F + "TransferFrame.pack", F + "TransferFrame.len", F + "TransferFrame.set_frame_len_in_header", F + "TransferFrame.unpack",
+           F + "TransferFrame.__get_tfdf_len", F + "FramePropertiesBase.__init__"]
+
+
+def opt(present, octets):
+    if present:
+        return octets
+    return None
+
+
+def opt_len(present, octets):
+    if present:
+        return len(octets)
+    return 0
+
+
+def opt_octets(present, octets):
+    if present:
+        return octets
+    return b""
+
+
+def build_frame(kind, scid, srcdst, vcid, map_id, frame_len0, bypass, pcc, n, vcf, rule, upid, tfdz, ptr, has_iz, iz, has_ocf, ocf, has_fecf, fecf):
+    """kind 0: fixed-length frame (pointer in the TFDF header), 1: variable-length frame, 2: truncated frame (annex D; no OCF)"""
+    p = None
+    if kind == 0:
+        p = ptr
+    if kind == 2:
+        header = TruncatedPrimaryHeader(scid, srcdst, vcid, map_id)
+    else:
+        header = PrimaryHeader(scid, srcdst, vcid, map_id, frame_len0, bypass, pcc, has_ocf, n, vcf)
+    tfdf = TransferFrameDataField(TfdzConstructionRules(rule), upid, tfdz, p)
+    return TransferFrame(header, tfdf, opt(has_iz, iz), opt(has_ocf, ocf), opt(has_fecf, fecf))
+
+
+def frame_total(kind, n, tfdz, has_iz, iz, has_ocf, has_fecf, fecf):
+    """octets of the whole frame: header, insert zone, TFDF header (1 or 3), data zone, OCF (4), FECF"""
+    hl = 7 + n
+    if kind == 2:
+        hl = 4
+    return hl + opt_len(has_iz, iz) + 1 + (2 if kind == 0 else 0) + len(tfdz) + (4 if has_ocf else 0) + opt_len(has_fecf, fecf)
+
+
+def frame_type_of(kind):
+    if kind == 0:
+        return FrameType.FIXED
+    return FrameType.VARIABLE
+
+
+def frame_pack_case(kind, scid, srcdst, vcid, map_id, frame_len0, bypass, pcc, n, vcf, rule, upid, tfdz, ptr,
+                    has_iz, iz, has_ocf, ocf, has_fecf, fecf):
+    requires(both(0 <= vcf, vcf < pow256n(n)))
+    total = frame_total(kind, n, tfdz, has_iz, iz, has_ocf, has_fecf, fecf)
+    requires(total <= 65536)
+    truncated = kind == 2
+    ftype = frame_type_of(kind)
+    f = build_frame(kind, scid, srcdst, vcid, map_id, frame_len0, bypass, pcc, n, vcf, rule, upid, tfdz, ptr, has_iz, iz, has_ocf, ocf, has_fecf, fecf)
+    f.set_frame_len_in_header()
+    raw = f.pack(truncated, ftype)
+    if truncated:
+        hdr_octets = truncated_header_octets(scid, srcdst, vcid, map_id)
+    else:
+        # composition: the header octets are those of PrimaryHeader.pack, which the obligation "PrimaryHeader.pack" proves equal
+        # to primary_header_octets(...) for every field tuple - here with the frame length field = total - 1
+        h = f.header
+        ensures("header-fields", both(h.scid == scid, h.src_dest == srcdst, h.vcid == vcid, h.map_id == map_id, h.bypass_seq_ctrl_flag == bypass,
+                                      h.prot_ctrl_cmd_flag == pcc, h.op_ctrl_flag == has_ocf, h.vcf_count_len == n, h.vcf_count == vcf))
+        ensures("frame-len-field", both(h.frame_len == len(raw) - 1, from_be(raw[4:6]) == len(raw) - 1))
+        hdr_octets = h.pack()
+    ensures("layout", raw == frame_octets(hdr_octets, opt_octets(has_iz, iz), tfdf_octets(rule, upid, kind == 0, ptr, tfdz),
+                                          opt_octets(has_ocf, ocf), opt_octets(has_fecf, fecf)))
+    ensures("len", both(f.len() == len(raw), len(raw) == total))
+    ensures("pack-twice", f.pack(truncated, ftype) == raw)
+    if not truncated:
+        # C11: state and octets are those of a frame whose header was built with the final frame length
+        fresh = build_frame(kind, scid, srcdst, vcid, map_id, total - 1, bypass, pcc, n, vcf, rule, upid, tfdz, ptr, has_iz, iz, has_ocf, ocf, has_fecf, fecf)
+        ensures("as-fresh", both(same_state(f, fresh), raw == fresh.pack(truncated, ftype)))
+
+
+def frame_decode_case(kind, scid, srcdst, vcid, map_id, bypass, pcc, n, vcf, rule, upid, tfdz, ptr,
+                      has_iz, iz, has_ocf, ocf, has_fecf, fecf, suffix):
+    """decode pack(f) ++ suffix with the matching managed parameters"""
+    requires(both(0 <= vcf, vcf < pow256n(n)))
+    total = frame_total(kind, n, tfdz, has_iz, iz, has_ocf, has_fecf, fecf)
+    requires(total <= 65536)
+    truncated = kind == 2
+    ftype = frame_type_of(kind)
+    f = build_frame(kind, scid, srcdst, vcid, map_id, total - 1, bypass, pcc, n, vcf, rule, upid, tfdz, ptr, has_iz, iz, has_ocf, ocf, has_fecf, fecf)
+    raw = f.pack(truncated, ftype)
+    if kind == 0:
+        props = FixedFrameProperties(total, has_iz, has_fecf, opt(has_iz, len(iz)), opt(has_fecf, len(fecf)))
+    else:
+        props = VarFrameProperties(has_iz, has_fecf, total, opt(has_iz, len(iz)), opt(has_fecf, len(fecf)))
+    o = outcome(TransferFrame.unpack, raw + suffix, ftype, props)
+    ensures("accepted", o.ok)
+    if o.ok:
+        g = o.value
+        # composition: the frame decoder's header is what the header decoder returns for the header octets alone; the obligations
+        # PrimaryHeader/roundtrip and TruncatedPrimaryHeader/roundtrip prove that this is the original header, field by field
+        if truncated:
+            ensures("header", both(kind_of(g.header) == "TruncatedPrimaryHeader", same_state(g.header, TruncatedPrimaryHeader.unpack(f.header.pack()))))
+        else:
+            ensures("header", both(kind_of(g.header) == "PrimaryHeader", same_state(g.header, PrimaryHeader.unpack(f.header.pack())),
+                                   g.header.len() == 7 + n))
+        ensures("zones", both(g.insert_zone == opt(has_iz, iz), g.op_ctrl_field == opt(has_ocf, ocf), g.fecf == opt(has_fecf, fecf)))
+        ensures("data-field", both(g.tfdf.tfdz_contr_rules == rule, g.tfdf.uslp_ident == upid, g.tfdf.fhp_or_lvop == f.tfdf.fhp_or_lvop,
+                                   g.tfdf.tfdz == tfdz, g.tfdf.len() == f.tfdf.len()))
+        ensures("len", g.len() == total)
+
+
+@obligation(["C17", "C11"], "TransferFrame.pack/fixed", verifies=V_FRAME)
+def frame_pack_fixed(scid: IntRange(0, 65535), srcdst: EnumOf(SourceOrDestField), vcid: IntRange(0, 63), map_id: IntRange(0, 15),
+                     frame_len0: IntRange(0, 65535), bypass: EnumOf(BypassSequenceControlFlag), pcc: EnumOf(ProtocolCommandFlag), n: N, vcf: Int,
+                     rule: FIXED_RULE, upid: UPID, tfdz: BytesLen(0, MAX_TFDZ), ptr: IntRange(0, 65535),
+                     has_iz: Bool, iz: Bytes, has_ocf: Bool, ocf: BytesLen(4, 4), has_fecf: Bool, fecf: Bytes):
+    frame_pack_case(0, scid, srcdst, vcid, map_id, frame_len0, bypass, pcc, n, vcf, rule, upid, tfdz, ptr, has_iz, iz, has_ocf, ocf, has_fecf, fecf)
+
+
+@obligation(["C17", "C11"], "TransferFrame.pack/variable", verifies=V_FRAME)
+def frame_pack_variable(scid: IntRange(0, 65535), srcdst: EnumOf(SourceOrDestField), vcid: IntRange(0, 63), map_id: IntRange(0, 15),
+                        frame_len0: IntRange(0, 65535), bypass: EnumOf(BypassSequenceControlFlag), pcc: EnumOf(ProtocolCommandFlag), n: N, vcf: Int,
+                        rule: VAR_RULE, upid: UPID, tfdz: BytesLen(0, MAX_TFDZ),
+                        has_iz: Bool, iz: Bytes, has_ocf: Bool, ocf: BytesLen(4, 4), has_fecf: Bool, fecf: Bytes):
+    frame_pack_case(1, scid, srcdst, vcid, map_id, frame_len0, bypass, pcc, n, vcf, rule, upid, tfdz, 0, has_iz, iz, has_ocf, ocf, has_fecf, fecf)
+
+
+@obligation(["C17"], "TransferFrame.pack/truncated", verifies=V_FRAME)
+def frame_pack_truncated(scid: IntRange(0, 65535), srcdst: EnumOf(SourceOrDestField), vcid: IntRange(0, 63), map_id: IntRange(0, 15),
+                         rule: VAR_RULE, upid: UPID, tfdz: BytesLen(0, MAX_TFDZ), has_iz: Bool, iz: Bytes, has_fecf: Bool, fecf: Bytes):
+    frame_pack_case(2, scid, srcdst, vcid, map_id, 0, BypassSequenceControlFlag.SEQ_CTRLD_QOS, ProtocolCommandFlag.USER_DATA, 0, 0,
+                    rule, upid, tfdz, 0, has_iz, iz, False, b"", has_fecf, fecf)
+
+
+@obligation(["C17", "C09"], "TransferFrame/roundtrip/fixed/vcf-len-0-3", verifies=V_FRAME)
+def frame_rt_fixed_lo(scid: IntRange(0, 65535), srcdst: EnumOf(SourceOrDestField), vcid: IntRange(0, 63), map_id: IntRange(0, 15),
+                      bypass: EnumOf(BypassSequenceControlFlag), pcc: EnumOf(ProtocolCommandFlag), n: N_LO, vcf: Int,
+                      rule: FIXED_RULE, upid: UPID, tfdz: BytesLen(0, MAX_TFDZ), ptr: IntRange(0, 65535),
+                      has_iz: Bool, iz: Bytes, has_ocf: Bool, ocf: BytesLen(4, 4), has_fecf: Bool, fecf: Bytes, suffix: Bytes):
+    frame_decode_case(0, scid, srcdst, vcid, map_id, bypass, pcc, n, vcf, rule, upid, tfdz, ptr, has_iz, iz, has_ocf, ocf, has_fecf, fecf, suffix)
+
+
+@obligation(["C17", "C09"], "TransferFrame/roundtrip/fixed/vcf-len-4-7", verifies=V_FRAME)
+def frame_rt_fixed(scid: IntRange(0, 65535), srcdst: EnumOf(SourceOrDestField), vcid: IntRange(0, 63), map_id: IntRange(0, 15),
+                   bypass: EnumOf(BypassSequenceControlFlag), pcc: EnumOf(ProtocolCommandFlag), n: N_HI, vcf: Int,
+                   rule: FIXED_RULE, upid: UPID, tfdz: BytesLen(0, MAX_TFDZ), ptr: IntRange(0, 65535),
+                   has_iz: Bool, iz: Bytes, has_ocf: Bool, ocf: BytesLen(4, 4), has_fecf: Bool, fecf: Bytes, suffix: Bytes):
+    frame_decode_case(0, scid, srcdst, vcid, map_id, bypass, pcc, n, vcf, rule, upid, tfdz, ptr, has_iz, iz, has_ocf, ocf, has_fecf, fecf, suffix)
+
+
+@obligation(["C17", "C09"], "TransferFrame/roundtrip/variable/vcf-len-0-3", verifies=V_FRAME)
+def frame_rt_variable_lo(scid: IntRange(0, 65535), srcdst: EnumOf(SourceOrDestField), vcid: IntRange(0, 63), map_id: IntRange(0, 15),
+                         bypass: EnumOf(BypassSequenceControlFlag), pcc: EnumOf(ProtocolCommandFlag), n: N_LO, vcf: Int,
+                         rule: VAR_RULE, upid: UPID, tfdz: BytesLen(0, MAX_TFDZ),
+                         has_iz: Bool, iz: Bytes, has_ocf: Bool, ocf: BytesLen(4, 4), has_fecf: Bool, fecf: Bytes, suffix: Bytes):
+    frame_decode_case(1, scid, srcdst, vcid, map_id, bypass, pcc, n, vcf, rule, upid, tfdz, 0, has_iz, iz, has_ocf, ocf, has_fecf, fecf, suffix)
+
+
+@obligation(["C17", "C09"], "TransferFrame/roundtrip/variable/vcf-len-4-7", verifies=V_FRAME)
+def frame_rt_variable(scid: IntRange(0, 65535), srcdst: EnumOf(SourceOrDestField), vcid: IntRange(0, 63), map_id: IntRange(0, 15),
+                      bypass: EnumOf(BypassSequenceControlFlag), pcc: EnumOf(ProtocolCommandFlag), n: N_HI, vcf: Int,
+                      rule: VAR_RULE, upid: UPID, tfdz: BytesLen(0, MAX_TFDZ),
+                      has_iz: Bool, iz: Bytes, has_ocf: Bool, ocf: BytesLen(4, 4), has_fecf: Bool, fecf: Bytes, suffix: Bytes):
+    frame_decode_case(1, scid, srcdst, vcid, map_id, bypass, pcc, n, vcf, rule, upid, tfdz, 0, has_iz, iz, has_ocf, ocf, has_fecf, fecf, suffix)
+
+
+@obligation(["C17", "C09"], "TransferFrame/roundtrip/truncated", verifies=V_FRAME)
+def frame_rt_truncated(scid: IntRange(0, 65535), srcdst: EnumOf(SourceOrDestField), vcid: IntRange(0, 63), map_id: IntRange(0, 15),
+                       rule: VAR_RULE, upid: UPID, tfdz: BytesLen(0, MAX_TFDZ), has_iz: Bool, iz: Bytes, has_fecf: Bool, fecf: Bytes, suffix: Bytes):
+    frame_decode_case(2, scid, srcdst, vcid, map_id, BypassSequenceControlFlag.SEQ_CTRLD_QOS, ProtocolCommandFlag.USER_DATA, 0, 0,
+                      rule, upid, tfdz, 0, has_iz, iz, False, b"", has_fecf, fecf, suffix)
+
+
+# ------------------------------------------------------------------------------------------------ decoding arbitrary octets (C10)
+# Every acceptance condition below is the contrapositive of "a mismatch that the format makes detectable is refused": a frame
+# is only accepted if the buffer holds the whole declared frame, the fixed length equals the frame length field + 1, a truncated
+# header comes with the variable frame type, the construction rule belongs to the frame type's family, and the managed sizes
+# leave room for a data field (with its pointer).
+
+SIZE = IntRange(0, None)
+
+
+def frame_any_case(data, fixed, trunc, n, has_iz, izl, has_fecf, fel, L):
+    """data: any octet string of >= 4 octets with the given end-of-frame-primary-header flag and (non-truncated, >= 7 octets)
+    VCF count length n; fixed: frame type FIXED with FixedFrameProperties(fixed_len=L), else VARIABLE with
+    VarFrameProperties(truncated_frame_len=L)"""
+    requires(len(data) >= 4)
+    requires(bits(data[3], 0, 0) == trunc)
+    if trunc == 0:
+        requires(len(data) >= 7)
+        requires(bits(data[6], 2, 0) == n)
+    if fixed:
+        ftype = FrameType.FIXED
+        props = FixedFrameProperties(L, has_iz, has_fecf, opt(has_iz, izl), opt(has_fecf, fel))
+    else:
+        ftype = FrameType.VARIABLE
+        props = VarFrameProperties(has_iz, has_fecf, L, opt(has_iz, izl), opt(has_fecf, fel))
+    o = outcome(TransferFrame.unpack, data, ftype, props)
+    ensures("raises-only", o.ok or o.raised(*USLP_ERRORS))
+    if o.ok:
+        g = o.value
+        ensures("truncated-only-with-variable-type", not both(trunc == 1, fixed))
+        if trunc == 1:
+            hl = 4
+            declared = L
+            c = 0
+            ensures("header", both(kind_of(g.header) == "TruncatedPrimaryHeader", same_state(g.header, TruncatedPrimaryHeader.unpack(data))))
+        else:
+            hl = 7 + n
+            declared = data[4] * 256 + data[5] + 1
+            c = 4 * bits(data[6], 3, 3)
+            ensures("header", both(kind_of(g.header) == "PrimaryHeader", same_state(g.header, PrimaryHeader.unpack(data))))
+        ensures("fixed-length-is-declared-length", implies(fixed, L == declared))
+        ensures("buffer-holds-frame", len(data) >= declared)
+        z = 0
+        if has_iz:
+            z = izl
+        e = 0
+        if has_fecf:
+            e = fel
+        tl = declared - hl - z - e - c
+        ensures("room-for-data-field", tl >= 1)
+        ensures("room-for-pointer", implies(fixed, tl >= 3))
+        s0 = hl + z
+        rule = bits(data[s0], 7, 5)
+        ensures("rule-family", family_matches(rule, ftype))
+        ensures("insert-zone", g.insert_zone == opt(has_iz, data[hl:s0]))
+        if fixed:
+            ensures("pointer", g.tfdf.fhp_or_lvop == from_be(data[s0 + 1:s0 + 3]))
+            ts = s0 + 3
+        else:
+            ensures("no-pointer", g.tfdf.fhp_or_lvop is None)
+            ts = s0 + 1
+        ensures("data-field", both(g.tfdf.tfdz_contr_rules == rule, g.tfdf.uslp_ident == bits(data[s0], 4, 0),
+                                   g.tfdf.tfdz == data[ts:s0 + tl], g.tfdf.len() == tl))
+        ensures("ocf", g.op_ctrl_field == opt(c == 4, data[s0 + tl:s0 + tl + 4]))
+        ensures("fecf", g.fecf == opt(has_fecf, data[s0 + tl + c:s0 + tl + c + e]))
+        ensures("len", g.len() == declared)
+
+
+@obligation(["C17", "C10"], "TransferFrame.unpack/any/fixed-type/vcf-len-0", verifies=V_FRAME)
+def frame_any_fixed_0(data: Bytes, has_iz: Bool, izl: SIZE, has_fecf: Bool, fel: SIZE, fixed_len: SIZE):
+    frame_any_case(data, True, 0, 0, has_iz, izl, has_fecf, fel, fixed_len)
+
+
+@obligation(["C17", "C10"], "TransferFrame.unpack/any/fixed-type/vcf-len-1", verifies=V_FRAME)
+def frame_any_fixed_1(data: Bytes, has_iz: Bool, izl: SIZE, has_fecf: Bool, fel: SIZE, fixed_len: SIZE):
+    frame_any_case(data, True, 0, 1, has_iz, izl, has_fecf, fel, fixed_len)
+
+
+@obligation(["C17", "C10"], "TransferFrame.unpack/any/fixed-type/vcf-len-2", verifies=V_FRAME)
+def frame_any_fixed_2(data: Bytes, has_iz: Bool, izl: SIZE, has_fecf: Bool, fel: SIZE, fixed_len: SIZE):
+    frame_any_case(data, True, 0, 2, has_iz, izl, has_fecf, fel, fixed_len)
+
+
+@obligation(["C17", "C10"], "TransferFrame.unpack/any/fixed-type/vcf-len-3", verifies=V_FRAME)
+def frame_any_fixed_3(data: Bytes, has_iz: Bool, izl: SIZE, has_fecf: Bool, fel: SIZE, fixed_len: SIZE):
+    frame_any_case(data, True, 0, 3, has_iz, izl, has_fecf, fel, fixed_len)
+
+
+@obligation(["C17", "C10"], "TransferFrame.unpack/any/fixed-type/vcf-len-4", verifies=V_FRAME)
+def frame_any_fixed_4(data: Bytes, has_iz: Bool, izl: SIZE, has_fecf: Bool, fel: SIZE, fixed_len: SIZE):
+    frame_any_case(data, True, 0, 4, has_iz, izl, has_fecf, fel, fixed_len)
+
+
+@obligation(["C17", "C10"], "TransferFrame.unpack/any/fixed-type/vcf-len-5", verifies=V_FRAME)
+def frame_any_fixed_5(data: Bytes, has_iz: Bool, izl: SIZE, has_fecf: Bool, fel: SIZE, fixed_len: SIZE):
+    frame_any_case(data, True, 0, 5, has_iz, izl, has_fecf, fel, fixed_len)
+
+
+@obligation(["C17", "C10"], "TransferFrame.unpack/any/fixed-type/vcf-len-6", verifies=V_FRAME)
+def frame_any_fixed_6(data: Bytes, has_iz: Bool, izl: SIZE, has_fecf: Bool, fel: SIZE, fixed_len: SIZE):
+    frame_any_case(data, True, 0, 6, has_iz, izl, has_fecf, fel, fixed_len)
+
+
+@obligation(["C17", "C10"], "TransferFrame.unpack/any/fixed-type/vcf-len-7", verifies=V_FRAME)
+def frame_any_fixed_7(data: Bytes, has_iz: Bool, izl: SIZE, has_fecf: Bool, fel: SIZE, fixed_len: SIZE):
+    frame_any_case(data, True, 0, 7, has_iz, izl, has_fecf, fel, fixed_len)
+
+
+@obligation(["C17", "C10"], "TransferFrame.unpack/any/variable-type/vcf-len-0", verifies=V_FRAME)
+def frame_any_variable_0(data: Bytes, has_iz: Bool, izl: SIZE, has_fecf: Bool, fel: SIZE, truncated_len: SIZE):
+    frame_any_case(data, False, 0, 0, has_iz, izl, has_fecf, fel, truncated_len)
+
+
+@obligation(["C17", "C10"], "TransferFrame.unpack/any/variable-type/vcf-len-1", verifies=V_FRAME)
+def frame_any_variable_1(data: Bytes, has_iz: Bool, izl: SIZE, has_fecf: Bool, fel: SIZE, truncated_len: SIZE):
+    frame_any_case(data, False, 0, 1, has_iz, izl, has_fecf, fel, truncated_len)
+
+
+@obligation(["C17", "C10"], "TransferFrame.unpack/any/variable-type/vcf-len-2", verifies=V_FRAME)
+def frame_any_variable_2(data: Bytes, has_iz: Bool, izl: SIZE, has_fecf: Bool, fel: SIZE, truncated_len: SIZE):
+    frame_any_case(data, False, 0, 2, has_iz, izl, has_fecf, fel, truncated_len)
+
+
+@obligation(["C17", "C10"], "TransferFrame.unpack/any/variable-type/vcf-len-3", verifies=V_FRAME)
+def frame_any_variable_3(data: Bytes, has_iz: Bool, izl: SIZE, has_fecf: Bool, fel: SIZE, truncated_len: SIZE):
+    frame_any_case(data, False, 0, 3, has_iz, izl, has_fecf, fel, truncated_len)
+
+
+@obligation(["C17", "C10"], "TransferFrame.unpack/any/variable-type/vcf-len-4", verifies=V_FRAME)
+def frame_any_variable_4(data: Bytes, has_iz: Bool, izl: SIZE, has_fecf: Bool, fel: SIZE, truncated_len: SIZE):
+    frame_any_case(data, False, 0, 4, has_iz, izl, has_fecf, fel, truncated_len)
+
+
+@obligation(["C17", "C10"], "TransferFrame.unpack/any/variable-type/vcf-len-5", verifies=V_FRAME)
+def frame_any_variable_5(data: Bytes, has_iz: Bool, izl: SIZE, has_fecf: Bool, fel: SIZE, truncated_len: SIZE):
+    frame_any_case(data, False, 0, 5, has_iz, izl, has_fecf, fel, truncated_len)
+
+
+@obligation(["C17", "C10"], "TransferFrame.unpack/any/variable-type/vcf-len-6", verifies=V_FRAME)
+def frame_any_variable_6(data: Bytes, has_iz: Bool, izl: SIZE, has_fecf: Bool, fel: SIZE, truncated_len: SIZE):
+    frame_any_case(data, False, 0, 6, has_iz, izl, has_fecf, fel, truncated_len)
+
+
+@obligation(["C17", "C10"], "TransferFrame.unpack/any/variable-type/vcf-len-7", verifies=V_FRAME)
+def frame_any_variable_7(data: Bytes, has_iz: Bool, izl: SIZE, has_fecf: Bool, fel: SIZE, truncated_len: SIZE):
+    frame_any_case(data, False, 0, 7, has_iz, izl, has_fecf, fel, truncated_len)
+
+
+@obligation(["C17", "C10"], "TransferFrame.unpack/any/truncated-header", verifies=V_FRAME)
+def frame_any_truncated(data: Bytes, fixed: Bool, has_iz: Bool, izl: SIZE, has_fecf: Bool, fel: SIZE, some_len: SIZE):
+    frame_any_case(data, fixed, 1, 0, has_iz, izl, has_fecf, fel, some_len)
+
+
+@obligation(["C17", "C10"], "TransferFrame.unpack/any/too-short-for-its-header", verifies=V_FRAME)
+def frame_any_short(data: BytesLen(0, 6), fixed: Bool, has_iz: Bool, izl: SIZE, has_fecf: Bool, fel: SIZE, some_len: SIZE):
+    """fewer than 4 octets, or a non-truncated header cut before its 7th octet"""
+    if len(data) >= 4:
+        requires(bits(data[3], 0, 0) == 0)
+    if fixed:
+        o = outcome(TransferFrame.unpack, data, FrameType.FIXED, FixedFrameProperties(some_len, has_iz, has_fecf, opt(has_iz, izl), opt(has_fecf, fel)))
+    else:
+        o = outcome(TransferFrame.unpack, data, FrameType.VARIABLE, VarFrameProperties(has_iz, has_fecf, some_len, opt(has_iz, izl), opt(has_fecf, fel)))
+    ensures("refused", o.raised(UslpInvalidRawPacketOrFrameLen))
+
+
+@obligation(["C17"], "TransferFrame.unpack/properties-of-the-wrong-kind", verifies=V_FRAME)
+def frame_wrong_props(data: BytesLen(4, None), has_iz: Bool, izl: SIZE, has_fecf: Bool, fel: SIZE, some_len: SIZE):
+    o = outcome(TransferFrame.unpack, data, FrameType.FIXED, VarFrameProperties(has_iz, has_fecf, some_len, opt(has_iz, izl), opt(has_fecf, fel)))
+    ensures("refused", o.raised(ValueError))
+    o2 = outcome(FixedFrameProperties, some_len, True, has_fecf, None, fel)
+    o3 = outcome(VarFrameProperties, has_iz, True, some_len, izl, None)
+    ensures("size-required-when-present", both(o2.raised(ValueError), o3.raised(ValueError)))
